@@ -145,7 +145,7 @@ def replay(rec):
     elif fam == "F5":
         sc = rec["scenario"]
         tr = []
-        w = f5.run(sc, tr)
+        w = f5.run_checked(sc, tr)
     elif fam == "F3d":
         c = rec["scenario"]["drift"]
         sc = f3.drift_scenario((c[0], tuple(c[1]), tuple(c[2])), rec["scenario"]["overcommit"])
